@@ -348,11 +348,11 @@ fn components() -> serde_json::Value {
             "chiritori-cli/src/main.rs, included verbatim",
             "clap 4.5 derive parser (argv supplied through try_get_matches_from)",
             "chrono 0.4.38 (Local::now, tz lookup through TZ / /usr/share/zoneinfo, FromStr, parse_from_str)",
-            "std: Read::read_to_string, Write::write_all, BufReader::lines, fmt"
+            "std: Read::read_to_string, Write::write_all, BufReader::lines, LineWriter (in front of the simulated stdout descriptor), fmt"
         ],
         "stub": [
             "std::fs::File / OpenOptions (in-memory file system with short transfers, EINTR, crash points)",
-            "std::io::stdin/stdout/stderr (captured; std's LineWriter around stdout is not exercised)",
+            "std::io::stdin/stderr and the descriptor under stdout (captured, with short transfers / EINTR)",
             "atty::isnt",
             "std::process::exit and panics (unwound to the simulator, mapped to exit status)",
             "kernel clock: clock_gettime(CLOCK_REALTIME) interposed at link time",
